@@ -18,8 +18,9 @@ DE_TRAITS = ("serialization::traits::Deserialize", "cbor_event::Deserialize", "c
 
 
 class Inventory:
-    def __init__(self, F):
+    def __init__(self, F, thorough=False):
         self.F = F
+        self.thorough = thorough
         self.ser, self.de, self.deg, self.seg = {}, {}, {}, {}
         for im in F.impls:
             t = im.get("trait") or ""
@@ -54,18 +55,18 @@ class Inventory:
     def analyse_all(self):
         F = self.F
         for T, k in self.seg.items():
-            r = e2.analyse(F, k, {})
+            r = e2.analyse(F, k, {}, max_runs=200000 if self.thorough else 20000, pairwise=self.thorough)
             self.results[k] = r
             tops = sorted(r["top"])
             self.summaries[k] = int(tops[0]) if r["status"] == "ok" and len(tops) == 1 and tops[0].isdigit() else None
         for k in self.roots:
             if k not in self.results:
-                self.results[k] = e2.analyse(F, k, {})  # embedded groups are inlined so that their items keep their field names
+                self.results[k] = e2.analyse(F, k, {}, max_runs=200000 if self.thorough else 20000, pairwise=self.thorough)  # embedded groups are inlined so that their items keep their field names
         return self.results
 
     def result(self, fid):
         if fid not in self.results:
-            self.results[fid] = e2.analyse(self.F, fid, {})
+            self.results[fid] = e2.analyse(self.F, fid, {}, max_runs=200000 if self.thorough else 20000, pairwise=self.thorough)
         return self.results[fid]
 
     # ---- readers --------------------------------------------------------------------------------
